@@ -983,38 +983,44 @@ func ruleVD4(c *Ctx) {
 	var clears, mustUnclaimed, needsClaim, implicit, clearedInBuilder map[string]bool
 	if re := c.anchor("replayEvents"); re != nil {
 		clears = map[string]bool{}
-		eachInstr(re, func(r instrRef) {
-			st, ok := r.In.(*ssa.Store)
-			if !ok {
-				return
-			}
-			fa, ok := st.Addr.(*ssa.FieldAddr)
-			if !ok || fieldName(fa.X.Type(), fa.Field) != "ClaimedBy" || constStr(st.Val) != "" {
-				return
-			}
-			if s, isC := constString(st.Val); !isC || s != "" {
-				return
-			}
-			// constants of NewState equality edges that can lead here (directly, or as alternatives of a predicate helper)
-			for _, bf := range branchFacts(re) {
-				if !(bf.E.To() == r.Blk || reach(bf.E.To(), nil, nil)[r.Blk] && sameCase(bf.E.To(), r.Blk)) {
-					continue
+		replayFns := []*ssa.Function{re}
+		if rm := c.replay(); rm != nil {
+			replayFns = rm.EffectFns
+		}
+		for _, re := range replayFns {
+			eachInstr(re, func(r instrRef) {
+				st, ok := r.In.(*ssa.Store)
+				if !ok {
+					return
 				}
-				atoms := []factAtom{{bf.A, bf.Holds}}
-				for _, alt := range bf.Alts {
-					atoms = append(atoms, alt...)
+				fa, ok := st.Addr.(*ssa.FieldAddr)
+				if !ok || fieldName(fa.X.Type(), fa.Field) != "ClaimedBy" || constStr(st.Val) != "" {
+					return
 				}
-				for _, fa := range atoms {
-					curEnv = fa.A.Env
-					if fa.A.Kind == "const" && fa.Holds {
-						if _, n, ok := fieldLoad(fa.A.X); ok && n == "NewState" {
-							clears[constStr(fa.A.C)] = true
+				if s, isC := constString(st.Val); !isC || s != "" {
+					return
+				}
+				// constants of NewState equality edges that can lead here (directly, or as alternatives of a predicate helper)
+				for _, bf := range branchFacts(re) {
+					if !(bf.E.To() == r.Blk || reach(bf.E.To(), nil, nil)[r.Blk] && sameCase(bf.E.To(), r.Blk)) {
+						continue
+					}
+					atoms := []factAtom{{bf.A, bf.Holds}}
+					for _, alt := range bf.Alts {
+						atoms = append(atoms, alt...)
+					}
+					for _, fa := range atoms {
+						curEnv = fa.A.Env
+						if fa.A.Kind == "const" && fa.Holds {
+							if _, n, ok := fieldLoad(fa.A.X); ok && n == "NewState" {
+								clears[constStr(fa.A.C)] = true
+							}
 						}
 					}
+					curEnv = nil
 				}
-				curEnv = nil
-			}
-		})
+			})
+		}
 	}
 	if vci := c.anchor("validateClaimInvariant"); vci != nil {
 		mustUnclaimed, needsClaim = map[string]bool{}, map[string]bool{}
